@@ -35,10 +35,10 @@ def translate(root, pkgdir="p", flags=("-ignore-errors",)):
     return rc, err, text
 
 
-def gl_session(text, queries):
+def gl_session(text, queries, timeout=600):
     """queries: list of protocol lines after `load`. Returns the replies."""
     ops = ["load " + (text.encode().hex() or "-")] + queries
-    p = C.run([C.DRIVER, "gl"], input="\n".join(ops) + "\n", env=os.environ.copy(), timeout=600)
+    p = C.run([C.DRIVER, "gl"], input="\n".join(ops) + "\n", env=os.environ.copy(), timeout=timeout)
     out = p.stdout.splitlines()
     if p.returncode != 0 or len(out) != len(ops):
         raise C.Infra("gl driver failed: rc=%d, %d replies for %d ops: %s" % (p.returncode, len(out), len(ops), p.stderr[-500:]))
